@@ -425,9 +425,12 @@ func ExecReader(data any, selector string) (any, error) {
 		}
 		cache[selector] = allSelectors
 	}
+	// the parsed selectors are read while the lock is still held: another
+	// goroutine may be inserting into the cache
+	parsed := cache[selector]
 	mut.Unlock()
 	result := data
-	for _, item := range cache[selector] {
+	for _, item := range parsed {
 		rs, err := ReaderExecutor(result, item)
 		if err != nil {
 			return nil, err
